@@ -1935,6 +1935,62 @@ fn keep_scenarios(s: &mut Session, rng: &mut Rng, count: u64) {
 	}
 }
 
+/// Builder-side and unity-gain corner cases (monitor only).
+/// (a) A send route given twice on one builder is ONE route with the last volume (`with_send` inserts into a map):
+///     "plus that signal through every send route on the path (route volume x send-track volume)".
+/// (b) A main-track volume tween that ends on exactly 0 dB renders like its twin that ends a hair below 0 dB:
+///     "all scaled by the main-track volume" also in the buffer in which the fader arrives at unity.
+fn builder_and_unity_scenarios(s: &mut Session) {
+	use crate::inject::*;
+	// (a)
+	for (first, second, expect) in [(-6.0f32, f32::NEG_INFINITY, 0.25f32), (f32::NEG_INFINITY, 0.0, 0.5), (0.0, 0.0, 0.5)] {
+		let (m, r) = shared_manager(1000, 4, MainTrackBuilder::new());
+		let send = m.lock().unwrap().add_send_track(SendTrackBuilder::new()).unwrap();
+		let db = |x: f32| if x == f32::NEG_INFINITY { Decibels::SILENCE } else { Decibels(x) };
+		let mut t = m.lock().unwrap().add_sub_track(TrackBuilder::new().with_send(&send, db(first)).with_send(&send, db(second))).unwrap();
+		t.play(Dc(0.25)).unwrap();
+		let _ = callback(&r, 4, 2);
+		let out = callback(&r, 8, 2);
+		s.eval_only("send_given_twice");
+		if let Some(i) = out.iter().position(|x| (*x - expect).abs() > 1e-6) {
+			s.fail(
+				format!("TrackBuilder::new().with_send(S, {first} dB).with_send(S, {second} dB); constant 0.25 on the track; S and main at 0 dB"),
+				format!("sample {i} is {:?}, expected {expect:?} (direct 0.25 + 0.25 x the LAST route volume given for S)", out[i]),
+				None,
+			);
+		}
+		drop(t);
+		drop(send);
+	}
+	// (b)
+	for (b, cbs, from_db, frames) in [(8usize, vec![8usize, 8, 8, 8], -20.0f32, 12u64), (16, vec![5, 16, 7, 16], -30.0, 0), (4, vec![4, 4, 4, 4, 4, 4], -6.0, 9), (128, vec![100, 100, 100], -12.0, 150)] {
+		let mut outs = vec![];
+		for target in [0.0f32, -0.0001] {
+			let (m, r) = shared_manager(1000, b, MainTrackBuilder::new().volume(Decibels(from_db)));
+			m.lock().unwrap().play(Dc(0.5)).unwrap();
+			let _ = callback(&r, b, 2);
+			m.lock().unwrap().main_track().set_volume(Decibels(target), Tween { start_time: StartTime::Immediate, duration: Duration::from_millis(frames), easing: Easing::Linear });
+			let mut o = vec![];
+			for n in &cbs {
+				o.extend(callback(&r, *n, 2));
+			}
+			outs.push(o);
+		}
+		s.eval_only("main_fader_to_unity");
+		for i in 0..outs[0].len() {
+			let (a, c) = (outs[0][i], outs[1][i]);
+			if (a - c).abs() > 1e-4 * c.abs().max(1e-3) {
+				s.fail(
+					format!("internal buffer {b}, callbacks {cbs:?}; main volume {from_db} dB, then set_volume(0 dB, Linear over {frames} frames); constant 0.5 on the main track"),
+					format!("sample {i} is {a:?}; with a target of -0.0001 dB instead of 0 dB it is {c:?}: the fader is not applied in the buffer in which it arrives at unity"),
+					None,
+				);
+				break;
+			}
+		}
+	}
+}
+
 pub fn run(args: &Args) {
 	let mut rng = Rng::new(args.seed ^ 0xC02);
 	let n: u64 = (if args.thorough { 6000 } else { 700 }) * args.budget_mul;
@@ -2146,6 +2202,7 @@ pub fn run(args: &Args) {
 		}
 	}
 	pickup_order_scenarios(&mut s);
+	builder_and_unity_scenarios(&mut s);
 	let n_ctl: u64 = (if args.thorough { 900 } else { 90 }) * args.budget_mul;
 	ctl_scenarios(&mut s, &mut rng, n_ctl);
 	keep_scenarios(&mut s, &mut rng, n_ctl * 4);
